@@ -2,9 +2,11 @@ package mon
 
 import (
 	"fmt"
+	"hash"
 	"hash/fnv"
 	"reflect"
 	"sort"
+	"strings"
 	"sync"
 
 	memefish "github.com/cloudspannerecosystem/memefish"
@@ -54,6 +56,12 @@ func digestWith(entry, input string, budget bool) (uint64, string) {
 		fmt.Fprintf(h, "panic:%s", PanicClass(p.Panic))
 		return h.Sum64(), "panic"
 	}
+	hashParsed(h, p)
+	return h.Sum64(), ""
+}
+
+// hashParsed digests everything observable of one returned result (trees, SQL(), positions, traversal, errors).
+func hashParsed(h hash.Hash64, p *Parsed) {
 	for _, r := range p.Roots {
 		if astx.IsNilNode(r) {
 			h.Write([]byte("nil"))
@@ -95,7 +103,85 @@ func digestWith(entry, input string, budget bool) (uint64, string) {
 			fmt.Fprintf(h, "err:%q", p.Err.Error())
 		}
 	}
-	return h.Sum64(), ""
+}
+
+// heldDigest digests a result that the caller already holds.
+func heldDigest(p *Parsed) uint64 {
+	h := fnv.New64a()
+	hashParsed(h, p)
+	return h.Sum64()
+}
+
+// checkHeld: a result, once returned, never changes: not when the same entry point parses the same text at shifted
+// positions (same error sites, other line/column), nor after unrelated calls.
+func checkHeld(c *Ctx, entry, input string, others []c18Case) {
+	if entry == "split" {
+		return
+	}
+	c.Journal(entry, input)
+	p1 := Parse(entry, input)
+	if p1.Panic != nil {
+		return
+	}
+	d1 := heldDigest(p1)
+	Parse(entry, "\n\n   "+input)
+	Parse(entry, input+" ")
+	for _, o := range others {
+		if o.entry != "split" {
+			Parse(o.entry, o.input)
+		}
+	}
+	c.Eval()
+	c.Count("held_results_rechecked", 1)
+	if d2 := heldDigest(p1); d2 != d1 {
+		c.Violate("c18:held-result-changed", entry, input, "a result returned earlier (tree, SQL(), positions or error list) reads differently after later calls on the same text at shifted positions")
+	}
+}
+
+// c18ErrorReps: this shard's share of errsites.tsv (one short input per distinct (entry, error message shape) that the
+// broad error workloads reach; written by cmd/harvest, workload data only).
+func c18ErrorReps(c *Ctx) []c18Case {
+	var reps []c18Case
+	for i, s := range LoadErrSites() {
+		if c.Mine(i) {
+			reps = append(reps, c18Case{s.Entry, s.Input})
+		}
+	}
+	return reps
+}
+
+// MsgShape is msgShape for tools.
+func MsgShape(m string) string { return msgShape(m) }
+
+func msgShape(m string) string {
+	// "expected X, but: Y" names its site by X alone; "unexpected token: Y" by nothing more
+	for _, cut := range []string{", but: ", " but: ", ", but ", "unexpected token"} {
+		if i := strings.Index(m, cut); i >= 0 {
+			if cut == "unexpected token" {
+				m = m[:i+len(cut)]
+			} else {
+				m = m[:i]
+			}
+		}
+	}
+	var sb strings.Builder
+	inq := byte(0)
+	for i := 0; i < len(m); i++ {
+		ch := m[i]
+		switch {
+		case inq != 0:
+			if ch == inq {
+				inq = 0
+			}
+		case ch == '"' || ch == '`' || ch == '\'':
+			inq = ch
+			sb.WriteByte('Q')
+		case ch >= '0' && ch <= '9':
+		default:
+			sb.WriteByte(ch)
+		}
+	}
+	return sb.String()
 }
 
 func tableDigest() uint64 {
@@ -323,6 +409,17 @@ func RunC18(c *Ctx) {
 		}
 		c.Eval()
 	}
+	// (2b) held results: every harvested error site and a sample of the set
+	reps := c18ErrorReps(c)
+	c.Count("error_site_representatives", int64(len(reps)))
+	for k, rp := range reps {
+		checkHeld(c, rp.entry, rp.input, reps[(k+1)%len(reps):(k+1)%len(reps)+1])
+		c.SetAdd("error_site_entries", rp.entry)
+	}
+	for k := 0; k < c.Pick(150, 4000); k++ {
+		i := r.IntN(len(cases))
+		checkHeld(c, cases[i].entry, cases[i].input, cases[(i+1)%len(cases):(i+1)%len(cases)+1])
+	}
 	// (1c) concurrent: G goroutines released on a barrier, each parses a random subset in its own order
 	G := 64
 	rounds := c.Pick(3, 20)
@@ -371,6 +468,51 @@ func RunC18(c *Ctx) {
 			c.Violate("c18:concurrent-result-differs", cases[i].entry, cases[i].input, "a call running concurrently with other calls returned a result different from the sequential one")
 		}
 	}
+	// every harvested error site, original and shifted, from all goroutines at once (shared error objects, shared
+	// position buffers): the sequential digests are the reference
+	if len(reps) > 0 {
+		type rc struct {
+			c18Case
+			ref uint64
+		}
+		var rcs []rc
+		for _, rp := range reps {
+			for _, in := range []string{rp.input, "\n\n   " + rp.input} {
+				d, _ := digestSeq(rp.entry, in)
+				rcs = append(rcs, rc{c18Case{rp.entry, in}, d})
+			}
+		}
+		var wg sync.WaitGroup
+		var mu sync.Mutex
+		var bad []int
+		start := make(chan struct{})
+		for g := 0; g < G/4; g++ {
+			wg.Add(1)
+			go func(g int) {
+				defer wg.Done()
+				<-start
+				for k := range rcs {
+					i := (k*7 + g*13) % len(rcs)
+					if g%2 == 1 {
+						i = k
+					}
+					if d, _ := digestOf(rcs[i].entry, rcs[i].input); d != rcs[i].ref {
+						mu.Lock()
+						bad = append(bad, i)
+						mu.Unlock()
+					}
+				}
+			}(g)
+		}
+		c.Journal("concurrent-round", "error-sites")
+		close(start)
+		wg.Wait()
+		c.Count("concurrent_calls", int64(G/4*len(rcs)))
+		c.Res.Evals += int64(G / 4 * len(rcs))
+		for _, i := range bad {
+			c.Violate("c18:concurrent-result-differs", rcs[i].entry, rcs[i].input, "a call running concurrently with other calls returned a result different from the sequential one")
+		}
+	}
 	c.Count("goroutines", int64(G))
 	c.Count("rounds", int64(rounds))
 	// (3) tables unchanged
@@ -384,6 +526,7 @@ func RunC18(c *Ctx) {
 
 // ReplayC18 re-checks one input: sequential repeat and a small concurrent burst.
 func ReplayC18(c *Ctx, entry, input string) {
+	checkHeld(c, entry, input, nil)
 	ref, _ := digestOf(entry, input)
 	for k := 0; k < 5; k++ {
 		if d, _ := digestOf(entry, input); d != ref {
